@@ -18,6 +18,7 @@ import (
 	"fmt"
 	"math"
 	"os"
+	"path/filepath"
 	"sort"
 	"strings"
 	"time"
@@ -53,7 +54,6 @@ type sel struct {
 	Spec [3]int
 	Set  int  // elements of the chain matched by the complete selector
 	Amp  bool // nested selector containing `&`
-	Bare int  // nested selector without `&`: elements matched by the selector as written, taken as a top-level selector
 }
 
 var topSels = []sel{
@@ -167,11 +167,11 @@ type doc struct {
 	nurl  int
 	nval  int
 	where map[int]string // val -> "sheet/rule path" used to classify judge failures
-	quirk map[int]bool   // val is declared in a nested rule whose selector list has the listQuirk
+	list  map[int]bool   // val is declared in a nested rule with a selector list (>= 2 selectors)
 }
 
 func newDoc(dev string, hints bool) *doc {
-	return &doc{Dev: dev, Hints: hints, res: map[string]string{}, where: map[int]string{}, quirk: map[int]bool{}}
+	return &doc{Dev: dev, Hints: hints, res: map[string]string{}, where: map[int]string{}, list: map[int]bool{}}
 }
 
 func (d *doc) val() int { d.nval++; return d.nval }
@@ -283,7 +283,7 @@ func mediaX(m []string) sx.X {
 func selsX(ss []sel) sx.X {
 	xs := []sx.X{sx.A("sels")}
 	for _, s := range ss {
-		xs = append(xs, sx.L(sx.A("s"), sx.I(s.Spec[0]), sx.I(s.Spec[1]), sx.I(s.Spec[2]), sx.B(s.Set&eProbe != 0), sx.B(s.Amp), sx.B(s.Bare&eProbe != 0)))
+		xs = append(xs, sx.L(sx.A("s"), sx.I(s.Spec[0]), sx.I(s.Spec[1]), sx.I(s.Spec[2]), sx.B(s.Set&eProbe != 0), sx.B(s.Amp)))
 	}
 	return sx.L(xs...)
 }
@@ -386,7 +386,7 @@ type builder struct {
 	lastSet  int          // union of the sets of its selectors
 	lastNest *[]*bodyItem // body of the last nested rule
 	lastNSet int
-	lastNQ   bool // the last nested rule has the listQuirk: nothing is nested into it (its Go-side match set differs)
+	lastNL   bool // the last nested rule has a selector list
 	path     string // where-path of the last rule
 	npath    string
 	nrule    int
@@ -480,30 +480,15 @@ func (b *builder) nested(a atom, parentSet int) (*bodyItem, int) {
 	for _, i := range nf {
 		f := nForms[i]
 		s := f.set(parentSet)
-		ss = append(ss, sel{Text: f.Text, Spec: f.Spec, Set: s, Amp: strings.Contains(f.Text, "&"), Bare: f.Own})
+		ss = append(ss, sel{Text: f.Text, Spec: f.Spec, Set: s, Amp: strings.Contains(f.Text, "&")})
 		set |= s
 	}
 	v := b.d.val()
 	n := &bodyItem{Sels: ss, Body: []*bodyItem{{IsDecl: true, D: decl{a.Imp, v}}}}
-	if listQuirk(ss) {
-		b.d.quirk[v] = true
+	if len(ss) > 1 {
+		b.d.list[v] = true
 	}
 	return n, set
-}
-
-// listQuirk: the nested selector list has a selector that PreprocessDeclarationsPrelude leaves without
-// its parent (a selector without `&` other than the first of a list that has no `&` at all).
-func listQuirk(ss []sel) bool {
-	has := false
-	for _, s := range ss {
-		has = has || s.Amp
-	}
-	for i, s := range ss {
-		if !s.Amp && (has || i > 0) {
-			return true
-		}
-	}
-	return false
 }
 
 func (b *builder) add(a atom) {
@@ -563,21 +548,16 @@ func (b *builder) add(a atom) {
 		}
 		n, set := b.nested(a, b.lastSet)
 		*b.lastRule = append(*b.lastRule, n)
-		b.lastNest, b.lastNSet, b.lastNQ = &n.Body, set, listQuirk(n.Sels)
+		b.lastNest, b.lastNSet, b.lastNL = &n.Body, set, len(n.Sels) > 1
 		b.npath = fmt.Sprintf("%s/n%d", b.path, len(*b.lastRule))
 		d.where[n.Body[0].D.Val] = b.npath
 	case "nest2":
-		if b.lastNest == nil || b.lastNQ {
+		if b.lastNest == nil {
 			a.K = "nest"
 			b.add(a)
 			return
 		}
 		n, _ := b.nested(a, b.lastNSet)
-		if listQuirk(n.Sels) { // keep the quirk to depth 1
-			n.Sels = n.Sels[:1]
-			n.Sels[0] = sel{Text: "&", Set: b.lastNSet, Amp: true}
-			delete(d.quirk, n.Body[0].D.Val)
-		}
 		*b.lastNest = append(*b.lastNest, n)
 		d.where[n.Body[0].D.Val] = fmt.Sprintf("%s/n%d", b.npath, len(*b.lastNest))
 	case "ndecl": // declaration appended to the last nested rule
@@ -589,8 +569,8 @@ func (b *builder) add(a atom) {
 		v := d.val()
 		*b.lastNest = append(*b.lastNest, &bodyItem{IsDecl: true, D: decl{a.Imp, v}})
 		d.where[v] = b.npath
-		if b.lastNQ {
-			d.quirk[v] = true
+		if b.lastNL {
+			d.list[v] = true
 		}
 	case "attr":
 		v := d.val()
@@ -789,7 +769,7 @@ func askModel(m *mp.Model, d *doc) (modelOut, error) {
 
 // classify names the class of a judge failure (used to match known findings specifically).
 func classify(d *doc, mo modelOut, real int) string {
-	if d.quirk[real] || d.quirk[mo.Spec] {
+	if d.list[real] || d.list[mo.Spec] {
 		return "nested-selector-list"
 	}
 	var ro, so *occ
@@ -1088,6 +1068,9 @@ func Run(tier string, seed uint64, modelPath, repo, replay string, out *res.Resu
 	if replay != "" {
 		return rn.replay(replay)
 	}
+	if err := rn.corpus(); err != nil {
+		return err
+	}
 
 	full := fullAlphabet()
 	for _, a := range full {
@@ -1132,6 +1115,40 @@ func Run(tier string, seed uint64, modelPath, repo, replay string, out *res.Resu
 		}
 	}
 	out.ModelCalls = m.N
+	return nil
+}
+
+// corpus runs the minimised past failures (/verif/corpus/C03/*.json) first: instruction tuples in the
+// format of Finding.Input; a regression shows up as an ordinary judge / corr finding.
+func (rn *runner) corpus() error {
+	exe, err := os.Executable()
+	if err != nil {
+		return err
+	}
+	files, _ := filepath.Glob(filepath.Join(filepath.Dir(filepath.Dir(exe)), "corpus", "C03", "*.json"))
+	sort.Strings(files)
+	for _, f := range files {
+		b, err := os.ReadFile(f)
+		if err != nil {
+			return err
+		}
+		var c struct {
+			Name   string `json:"name"`
+			Atoms  []atom `json:"atoms_json"`
+			Device string `json:"device"`
+			Hints  bool   `json:"presentational_hints"`
+		}
+		if err := json.Unmarshal(b, &c); err != nil || len(c.Atoms) == 0 {
+			return fmt.Errorf("corpus file %s: unreadable or empty (%v)", f, err)
+		}
+		if c.Device == "" {
+			c.Device = "print"
+		}
+		if err := rn.one("corpus", c.Device, c.Hints, c.Atoms); err != nil {
+			return err
+		}
+	}
+	rn.out.Notes = append(rn.out.Notes, fmt.Sprintf("corpus: %d minimised past failures replayed first", len(files)))
 	return nil
 }
 
